@@ -489,6 +489,12 @@ class Visitor(ast.NodeVisitor):
             # Since we evaluate generator expressions with runtime compilation, a placeholder is returned here.
             return PLACEHOLDER
 
+        # Please see "NOTE ABOUT PLACEHOLDERS AND RE-COMPUTATION"
+        #
+        # The variable is a target of a comprehension which shadows a variable with the same name.
+        if result is PLACEHOLDER:
+            return PLACEHOLDER
+
         self.recomputed_values[node] = result
         return result
 
